@@ -237,6 +237,17 @@ def replay(job, rec):
                     mism.append(Mismatch(prop_id, None, "table_name of partition %d is %r, "
                                          "expected %r" % (k, got, want), {},
                                          tags=dict(base_tags, prop="table_name")))
+                # the sub-variable a stacked table of a categorical array belongs to
+                for tprop, twant in (("tab_label", envelope._item_name(td, aux["tpos"])
+                                      if td["kind"] == "caitems" else ""),
+                                     ("tab_alias", envelope._item_alias(td, aux["tpos"])
+                                      if td["kind"] == "caitems" else "")):
+                    evals += 1
+                    tgot = getattr(part, tprop, None)
+                    if tgot != twant:
+                        mism.append(Mismatch(prop_id, None, "%s of partition %d is %r, expected %r"
+                                             % (tprop, k, tgot, twant), {},
+                                             tags=dict(base_tags, prop=tprop)))
             for prop, e in exp.items():
                 if prop in skip or (only and prop not in only):
                     continue
